@@ -86,6 +86,15 @@ def place_loops(rng, song, mode):
             ins(b, "loopend", 48); ins(b, "loopend", 10); ins(a, "loopstart", 48)
     song["loopmode"] = mode
 
+def rewind_prelude(rng):
+    """nothing (mostly) | rewind straight after the load | play a few calls, then rewind: the play that follows is a
+    complete one from the start in every case"""
+    r = rng.random()
+    if r < 0.7: return []
+    if r < 0.85: return [{"e": "Rewind"}]
+    return [{"e": "PlayTicks", "steps": [], "max": rng.choice([1, 2, 3, 5, 8]), "partial": 1}, {"e": "Rewind"}]
+
+
 def play_history(rng, song, kind="plain"):
     """kind: plain (loop off, exact or stepped) | loop | gating | audio"""
     if kind == "audio":
@@ -107,6 +116,7 @@ def play_history(rng, song, kind="plain"):
             h += [{"e": "SetHooks"}, {"e": "Load"}, {"e": "Reset"}]
         h.append({"e": "Load"})
         if hooks_when in ("after",): h.append({"e": "SetHooks"})
+        h += rewind_prelude(rng)
         h.append({"e": "PlayTicks", "steps": [], "max": 150 if n < 0 else 3000})
         return h
     h.append({"e": "SetHooks"})
@@ -120,6 +130,7 @@ def play_history(rng, song, kind="plain"):
             if r < 0.5: h.append({"e": "TrackOpt", "t": rng.randrange(nt + 1), "o": rng.choice([1, 2, 2])})
             elif r < 0.8: h.append({"e": "TrackOpt", "t": rng.randrange(nt), "o": 3})
             else: h.append({"e": "ChanEn", "c": rng.randrange(nt + 1), "en": 0})
+    h += rewind_prelude(rng)
     if rng.random() < 0.5:
         h.append({"e": "PlayTicks", "steps": [], "max": 3000})
     else:
